@@ -108,6 +108,8 @@ type Exec struct {
 	pools    map[string][]Value
 	known    map[*Term]uint64
 	maxDepthSeen int
+	noInj    bool
+	apps     []*Term // applications of the uninterpreted hash summaries on this path
 	sched    *Sched
 	fixed    []TapeEntry // concrete mode: input values
 	fixedPos int
